@@ -64,6 +64,24 @@ Theorem C12_importance_cards_max :
 Proof. exact @importance_cards_max. Qed.
 Print Assumptions C12_importance_cards_max.
 
+(* repeated card names (and repeated cell numbers): the dictionaries built by
+   get_cell_importances / get_cells answer with the LAST value assigned to a key,
+   kept at the position of its first assignment; importance_cards only sees the
+   dictionary, whose names are pairwise distinct - the NoDup hypothesis of
+   C12_importance_cards_max is therefore no restriction *)
+Theorem C12_importance_cards_dedup :
+  forall (T : Type) (Sc : Scalar T) (P : prims T) (cards : list (string * list string)),
+    importance_cards Sc P cards = importance_cards Sc P (dict_of String.eqb cards)
+    /\ NoDup (map fst (dict_of String.eqb cards)).
+Proof. exact @importance_cards_dedup. Qed.
+Print Assumptions C12_importance_cards_dedup.
+
+Theorem C12_dictionary_last_assignment :
+  forall (K V : Type) (eqb : K -> K -> bool), (forall a b, eqb a b = true <-> a = b) ->
+  forall (k : K) (l : list (K * V)), dict_get eqb k (dict_of eqb l) = last_assoc eqb k l.
+Proof. exact @dict_of_get_last. Qed.
+Print Assumptions C12_dictionary_last_assignment.
+
 Theorem C12_importance_cards_uneven_refused :
   forall (T : Type) (Sc : Scalar T) (P : prims T) (cards : list (string * list string))
          (first : list T) (others : list (list T)),
